@@ -263,7 +263,7 @@ def _worker(hname, cfgs, opts, tasks, results, widx, stop_flags=None, path_count
                                 elif len(old_c.get("alts", [])) < 3:
                                     old_c.setdefault("alts", []).append(j["inputs"])
                     # engine validation: concrete replay of this path's model must agree
-                    if status == "done" and not cx.candidates and not cx.repeats and not cx.ended_by_exception and (st.validated < opts["validate_first"] or st.done % opts["validate_every"] == 0):
+                    if status == "done" and not cx.candidates and not cx.repeats and not cx.ended_by_exception and (st.validated < opts["validate_first"] or cfg.get("validate_all") or st.done % opts["validate_every"] == 0):
                         m = cx._nice_model(strict_only=True)
                         if m is None:
                             st.counters['validation_skipped_tie_only_path'] = st.counters.get('validation_skipped_tie_only_path', 0) + 1
@@ -275,6 +275,15 @@ def _worker(hname, cfgs, opts, tasks, results, widx, stop_flags=None, path_count
                                 why = res["status"] + ": " + res.get("why", "")
                             elif res["failures"]:
                                 why = "concrete run fails %r on a path the solver proved" % (res["failures"][0][:2],)
+                                # the unshimmed code is the ground truth: a check that fails on it with these inputs is a
+                                # violation candidate in its own right (typically a machine-arithmetic effect - a wrapped
+                                # int64, a rounded float - that exact integer / real arithmetic cannot show); it goes through
+                                # the ordinary replay before anything is reported
+                                f0 = res["failures"][0]
+                                key = (f0[0], f0[2] if len(f0) > 2 else None)
+                                if key not in st.cands:
+                                    st.cands[key] = {"label": f0[0], "detail": "%s  [found by replaying on the unshimmed code a path the solver had proved in exact arithmetic]" % (f0[1],),
+                                                     "inputs": inputs, "exc": key[1], "nice": True, "count": 1, "maybe_infeasible": False}
                             else:
                                 why = _observations_agree(E, getattr(cx, "obs", []), res["observations"], m)
                             if why is None:
